@@ -37,7 +37,7 @@ def main():
             if key in seen:
                 continue
             seen.add(key)
-            if r["broken"] or r["detected_by"] or r["what"] not in WEAK:
+            if r["broken"] or r["detected_by"] or not (r["what"] in WEAK or r["op"] in ("swap", "del", "move")):
                 continue
             if subs and not any(s in r["file"] for s in subs):
                 continue
@@ -64,8 +64,11 @@ def main():
             print("stale record", r["file"], r["line"])
             continue
         new = list(src)
-        if r["op"] == "persist":
+        if r["op"] in ("persist", "del"):
             del new[i]
+        elif r["op"] == "move":
+            new[i] = src[i + 1]
+            new[i + 1] = src[i]
         else:
             indent = src[i][:len(src[i]) - len(src[i].lstrip())]
             new[i] = indent + r["new"]
